@@ -469,12 +469,88 @@ def _callee_name(call, cls: str):
     return None, None
 
 
+def _always_exits(stmts) -> bool:
+    if not stmts:
+        return False
+    last = stmts[-1]
+    if isinstance(last, (ast.Return, ast.Raise)):
+        return True
+    if isinstance(last, ast.If):
+        return _always_exits(last.body) and _always_exits(last.orelse)
+    return False
+
+
+def _nest_guards(stmts):
+    """Guard clauses read as nesting: `if c: ...; return x` followed by REST is `if c: ...; return x  else: REST`
+    (the body always leaves the function, so REST runs exactly when c is false)."""
+    out = []
+    for i, st in enumerate(stmts):
+        if isinstance(st, ast.If):
+            st.body = _nest_guards(st.body)
+            st.orelse = _nest_guards(st.orelse)
+            rest = stmts[i + 1:]
+            has_ret = any(isinstance(x, ast.Return) for x in ast.walk(st))
+            if rest and has_ret:
+                # every arm that can fall through continues with (its own copy of) the rest
+                if not _always_exits(st.body):
+                    st.body = st.body + copy.deepcopy(rest)
+                if not _always_exits(st.orelse):
+                    st.orelse = st.orelse + copy.deepcopy(rest)
+                st.body = _nest_guards(st.body)
+                st.orelse = _nest_guards(st.orelse)
+                out.append(st)
+                return out
+        out.append(st)
+    return out
+
+
+def _search_loop(stmts, retname: str):
+    """`for x in it: ... if c: return E ...` followed by `return D` (D a constant / plain name) is the search idiom
+    `ret = D; for x in it: ... if c: ret = E; break`  followed by `return ret` (returns only under ifs of that loop)."""
+    if len(stmts) < 2 or not isinstance(stmts[-1], ast.Return) or not isinstance(stmts[-2], ast.For) or stmts[-2].orelse:
+        return stmts
+    loop, last = stmts[-2], stmts[-1]
+    if last.value is None or not _simple_expr(last.value):
+        return stmts
+    if any(isinstance(x, ast.Return) for st in stmts[:-2] for x in ast.walk(st)):
+        return stmts
+    ok = True
+
+    def rewrite(block):
+        nonlocal ok
+        out = []
+        for st in block:
+            if isinstance(st, ast.Return):
+                if st.value is None:
+                    ok = False
+                    return block
+                out.append(ast.copy_location(ast.Assign([ast.Name(retname, ast.Store())], st.value, lineno=st.lineno), st))
+                out.append(ast.copy_location(ast.Break(), st))
+                continue
+            if isinstance(st, ast.If):
+                st.body = rewrite(st.body)
+                st.orelse = rewrite(st.orelse)
+            elif any(isinstance(x, ast.Return) for x in ast.walk(st)):
+                ok = False
+            out.append(st)
+        return out
+    saved = copy.deepcopy(loop.body)
+    loop.body = rewrite(loop.body)
+    if not ok:
+        loop.body = saved
+        return stmts
+    init = ast.copy_location(ast.Assign([ast.Name(retname, ast.Store())], last.value, lineno=loop.lineno), loop)
+    return stmts[:-2] + [init, loop, ast.copy_location(ast.Return(ast.Name(retname, ast.Load())), last)]
+
+
 def _tailify(helper, retname: str):
     """A copy of the helper whose `return e` statements - all in structural tail position (last statement of the body, of an
     if/else arm, of a try body without else/finally, of an except handler, of a with body; never in a loop) and with every
     tail position ending in a return or a raise - are `retname = e`, followed by one trailing `return retname`.  None when
     the helper does not have that shape."""
     h = copy.deepcopy(helper)
+    h.body = _search_loop(h.body, retname)
+    h.body = _nest_guards(h.body)
     ok = True
 
     def tail(stmts):
@@ -490,7 +566,10 @@ def _tailify(helper, retname: str):
             if last.value is None:
                 ok = False
                 return
-            stmts[-1] = ast.copy_location(ast.Assign([ast.Name(retname, ast.Store())], last.value, lineno=last.lineno), last)
+            if isinstance(last.value, ast.Name) and last.value.id == retname:
+                stmts[-1] = ast.copy_location(ast.Pass(), last)  # `ret = ret`
+            else:
+                stmts[-1] = ast.copy_location(ast.Assign([ast.Name(retname, ast.Store())], last.value, lineno=last.lineno), last)
         elif isinstance(last, ast.Raise):
             return
         elif isinstance(last, ast.If):
@@ -688,6 +767,73 @@ def _calls_to(tree, name: str, cls: str) -> int:
     return k
 
 
+def _expr_helper(fn):
+    """The expression of a helper that is nothing but `return <expr>`, else None."""
+    if isinstance(fn, ast.AsyncFunctionDef):
+        return None
+    body = fn.body
+    if body and isinstance(body[0], ast.Expr) and isinstance(body[0].value, ast.Constant) and isinstance(body[0].value.value, str):
+        body = body[1:]
+    if len(body) == 1 and isinstance(body[0], ast.Return) and body[0].value is not None:
+        e = body[0].value
+        if any(isinstance(x, (ast.Await, ast.Yield, ast.YieldFrom, ast.Lambda, ast.NamedExpr)) for x in ast.walk(e)):
+            return None
+        return e
+    return None
+
+
+def inline_expression_helpers(helpers, fn, cls, rep: Report) -> bool:
+    """Calls of new helpers that are a single `return <expr>` are replaced by that expression wherever they stand
+    (each parameter is used at most once in it, or its argument is a plain name / attribute / constant)."""
+    changed = False
+
+    class T(ast.NodeTransformer):
+        def visit_Call(self, node):
+            nonlocal changed
+            self.generic_visit(node)
+            name, _ = _callee_name(node, cls)
+            h = helpers.get(name)
+            if h is None or h is fn:
+                return node
+            e = _expr_helper(h)
+            if e is None:
+                return node
+            static = any(ast.unparse(d) == "staticmethod" for d in h.decorator_list)
+            bound = _bind(h, node, bool(cls), static)
+            if bound is None:
+                return node
+            uses = {}
+            for x in ast.walk(e):
+                if isinstance(x, ast.Name):
+                    uses[x.id] = uses.get(x.id, 0) + 1
+            if any(not _simple_expr(a) and uses.get(p, 0) > 1 for p, a in bound.items()):
+                return node
+            if any(isinstance(x, ast.comprehension) for x in ast.walk(e)) and any(
+                    isinstance(x, ast.Name) and x.id in bound and not _simple_expr(bound[x.id]) and not _is_outer_iter(e, x) for x in ast.walk(e)):
+                return node  # a non-trivial argument would be re-evaluated per iteration inside a comprehension
+            selfname = h.args.args[0].arg if (cls and not static and h.args.args) else None
+            subst = dict(bound)
+            if selfname and isinstance(node.func, ast.Attribute) and isinstance(node.func.value, ast.Name):
+                subst[selfname] = ast.Name(node.func.value.id, ast.Load())
+            new = _Rename({}, subst).visit(copy.deepcopy(e))
+            ast.copy_location(new, node)
+            ast.fix_missing_locations(new)
+            rep.inlined.append((f"{cls + '.' if cls else ''}{h.name} (expression)", f"{cls + '.' if cls else ''}{fn.name}", getattr(node, "lineno", 0)))
+            changed = True
+            return new
+    fn.body = [T().visit(st) for st in fn.body]
+    return changed
+
+
+def _is_outer_iter(e, name_node) -> bool:
+    """name_node is (inside) the iterable of the first generator of a comprehension in e: evaluated once."""
+    for x in ast.walk(e):
+        if isinstance(x, (ast.ListComp, ast.SetComp, ast.GeneratorExp, ast.DictComp)) and x.generators:
+            if any(y is name_node for y in ast.walk(x.generators[0].iter)):
+                return True
+    return False
+
+
 def inline_helpers(modules, known, rep: Report):
     for rel, mod in modules.items():
         for sc, body, owner in scopes(mod.tree):
@@ -713,6 +859,7 @@ def inline_helpers(modules, known, rep: Report):
                 failed = set()
                 any_change = False
                 for fn in list(present.values()):
+                    any_change |= inline_expression_helpers(helpers, fn, sc, rep)
                     nb, ch = _inline_in_block(fn.body, helpers, fn, sc, rep, failed)
                     fn.body = nb
                     any_change |= ch
